@@ -190,7 +190,7 @@ def quarter(start, zidx, rid):
     return skrgen.honest_request(rid, start, 9, zs, ZP, sign=True)
 
 
-VARIANTS = ["honest", "replayed", "gapped", "re-keyed", "partly-re-keyed", "re-keyed-same-identifier", "overlapping-ids", "too-early"]
+VARIANTS = ["honest", "replayed", "replayed-other-serial", "gapped", "re-keyed", "partly-re-keyed", "re-keyed-same-identifier", "overlapping-ids", "too-early"]
 
 
 def ksr_for(state, variant, seq):
@@ -203,6 +203,8 @@ def ksr_for(state, variant, seq):
         return quarter(start, zidx, rid)
     if variant == "replayed":
         return quarter(start, zidx, state["skr"]["id"])
+    if variant == "replayed-other-serial":
+        return dict(quarter(start, zidx, state["skr"]["id"]), serial=state["skr"]["serial"] + 1)
     if variant == "gapped":
         return quarter(lastb["exp"] + D(days=1), zidx, rid)
     if variant == "too-early":
